@@ -118,18 +118,26 @@ def run_chunk(cases):
                 # of its own, after each thing a program may have done with the object before
                 calls = (("children", lambda q: q.children()), ("children(recursive)", lambda q: q.children(recursive=True)),
                          ("parent", lambda q: q.parent()), ("parents", lambda q: q.parents()))
-                for prelude in ("none", "oneshot-children", "oneshot-is_running", "is_running", "waited", "as_dict"):
+                for prelude in ("none", "oneshot-children", "oneshot-is_running", "is_running", "waited", "as_dict",
+                                "oneshot-left-by-exception"):
                     for name, fn in calls:
                         build(w, e["tbl"])
                         ps.pids()
                         q = ps.Process(s)
                         cm = None
-                        if prelude.startswith("oneshot"):
+                        if prelude in ("oneshot-children", "oneshot-is_running"):
                             cm = q.oneshot()
                             cm.__enter__()
                             q.children() if prelude == "oneshot-children" else q.is_running()
                         elif prelude == "is_running":
                             q.is_running()
+                        elif prelude == "oneshot-left-by-exception":
+                            try:
+                                with q.oneshot():
+                                    q.ppid(), q.parent(), q.children()
+                                    raise KeyError("the block's own business")
+                            except KeyError:
+                                pass
                         elif prelude == "as_dict":
                             q.as_dict(attrs=["ppid", "create_time", "status"])
                         w.reap(s)
